@@ -105,7 +105,13 @@ def verify_contract(c, src_index, unroll=0, timeout_ms=20000, registry=REGISTRY,
             it.top_qualname = q
             sig_args = list(p.values())
             try:
-                res = it.invoke(f, [], dict(p), None)
+                va = f.node.args.vararg
+                pk = dict(p)
+                pos = []
+                if va is not None and va.arg in pk:
+                    names = [x.arg for x in f.node.args.posonlyargs + f.node.args.args]
+                    pos = [pk.pop(nm) for nm in names] + list(pk.pop(va.arg))
+                res = it.invoke(f, pos, pk, None)
                 outcome = ('return', res)
             except PyExc as e:
                 outcome = ('raise', e)
